@@ -1497,8 +1497,17 @@ def c18(docs, sizes, binary, api, be, bad_at):
         for api2 in ('load_all', 'compose_all'):
             refs.clear()
             st2 = _Stream(data, sizes); refs['stream'] = weakref.ref(st2)
-            g = getattr(yaml, api2)(st2, Loader=L2)
-            next(g); g.close(); del g, st2
+            was_enabled = gc.isenabled(); gc.disable()
+            try:
+                g = getattr(yaml, api2)(st2, Loader=L2)
+                next(g); g.close(); del g
+                # dispose() must have cut the loader's references to itself (the parser's state is a bound method): without a run of the cyclic
+                # collector the loader goes away with its last outside reference
+                if be == 'py' and 'loader' in refs and refs['loader']() is not None:
+                    bad.append(dict(kind='kept_alive', what='%s/%s: after the abandoned iteration the loader is still alive although nothing refers to it any more (only a run of the cyclic garbage collector would free it: dispose() left a reference cycle)' % (be, api2), backend=be)); break
+            finally:
+                if was_enabled: gc.enable()
+            del st2
             gc.collect()
             alive = [n for n in ('loader', 'stream') if n in refs and refs[n]() is not None]
             if alive:
